@@ -486,3 +486,38 @@ func c12VersionsAsGiven(c *Ctx) {
 		c.R.Unk(rule, "sqlite: OnlyVersions", "-", "no assignment of S3Options.OnlyVersions found in package sqlite")
 	}
 }
+
+// ---- C12.always-diffs: no answer without comparing the two trees ------------------------------------------
+
+func init() {
+	register(&Rule{Name: "C12.always-diffs", Min: 1, Run: c12AlwaysDiffs,
+		Doc: "every cursor ChangesTable.Open hands out was started by StartDiff over the two trees: no shortcut answers 'no changes' from the version lists"})
+	byProp["C12"] = append(byProp["C12"], "C12.always-diffs")
+	explain["C12"] += " always-diffs: a version is a set of names, and only equal sets denote equal rows (a read-only table that merged two writers in memory reports a two-name version of which each writer's own version is a proper subset); every successful return of ChangesTable.Open lies behind the StartDiff call, so no comparison of the lists stands in for comparing the trees."
+}
+
+func c12AlwaysDiffs(c *Ctx) {
+	const rule = "C12.always-diffs"
+	fn := mustFunc(c, "sqlite", "*ChangesTable", "Open")
+	if fn == nil {
+		return
+	}
+	name := core.FuncName(fn)
+	c.R.SawFunc(name)
+	h := an.THooks{Instr: func(in ssa.Instruction, st an.TState) an.TState {
+		if cl, ok := in.(ssa.CallInstruction); ok && an.CalleeIs(cl, kvPkg, "DB", "StartDiff") {
+			return ansState(true)
+		}
+		return st
+	}}
+	exits := an.WalkTypestate(fn, ansState(false), h, c.Scope(fn))
+	good := len(exits) > 0
+	why := ""
+	for _, ex := range exits {
+		if ex.ErrNil != 0 && !bool(ex.St.(ansState)) {
+			good = false
+			why = "Open can hand out a cursor at " + c.P.Pos(ex.Ret.Pos()) + " without having started a diff: whatever decides that (e.g. 'from and to name the same versions', which a subset test also satisfies) replaces the comparison of the trees, and rows that differ are not reported"
+		}
+	}
+	c.R.Cond(good, rule, name+": every cursor comes from StartDiff", c.P.Pos(fn.Pos()), "no successful return bypasses StartDiff", why)
+}
